@@ -57,6 +57,40 @@ def _create_chunk(args):
     return (n, None, None)
 
 
+def _codepoint_chunk(args):
+    lo, hi, step, always = args
+    from vsg import tokens
+
+    n = 0
+    for cp in range(lo, hi):
+        if 0xD800 <= cp <= 0xDFFF:
+            continue
+        ch = chr(cp)
+        if not (always or cp % step == 0 or ch.isspace() or not ch.isprintable()):
+            continue
+        for s in (ch, "a" + ch + "b", "a " + ch + " b", "--" + ch + "x", '"' + ch + '"', ch + ch):
+            n += 1
+            try:
+                r = tokens.create(s)
+            except Exception as e:  # noqa
+                return (n, s, "raised %s: %s" % (type(e).__name__, e))
+            if "".join(r) != s:
+                return (n, s, "join(create(s)) = %r" % "".join(r))
+    return (n, None, None)
+
+
+def codepoint_create(all_points):
+    """every Unicode code point (quick tier: every white-space / non-printable code point and every 97th other one) alone, between
+    letters, between blanks, in a comment, in a string literal, doubled"""
+    jobs = [(lo, min(lo + 0x2000, 0x110000), 97, all_points) for lo in range(0, 0x110000, 0x2000)]
+    total = 0
+    for n, s, why in corpus.pmap(_codepoint_chunk, jobs, chunksize=2):
+        total += n
+        if s is not None:
+            return total, s, why
+    return total, None, None
+
+
 def exhaustive_create(maxlen):
     # first character partitions the space over the pool; the empty string is added by hand
     jobs = [([c], maxlen, DELIMS) for c in DELIMS]
@@ -191,6 +225,7 @@ def run():
         "vsg.vhdlFile.vhdlFile.split_on_carriage_return",
         "vsg.vhdlFile.vhdlFile.vhdlFile.get_lines",
         "vsg.vhdlFile.classify.whitespace.classify",
+        "vsg.vhdlFile.classify.comment.classify_single_line_comment",
         # (c) a clean file is never rewritten: the driver writes exactly when some _fix_violation ran, never without --fix
         "vsg.apply_rules.apply_rules",
         "vsg.rule_list.rule_list.fix",
@@ -205,6 +240,11 @@ def run():
     maxlen = 5 if c.tier == "quick" else 6
     total, s, why = exhaustive_create(maxlen)
     c.bounded["create_exhaustive"] = {"evaluations": total, "distinct_nontrivial": total, "rule": "every string of length <= %d over the %d-character delimiter alphabet %r" % (maxlen, len(DELIMS), "".join(DELIMS)), "exhaustive": True}
+    if s is not None:
+        c.findings.append(Finding("bounded", "tokens.create#join", "join(tokens.create(%r)) != input: %s" % (s, why), {"function": "vsg.tokens.create", "failing_input": {"sString": s}, "observed": why}, repr(s)))
+
+    total, s, why = codepoint_create(c.tier == "thorough")
+    c.bounded["create_codepoints"] = {"evaluations": total, "distinct_nontrivial": total, "rule": "six strings around every Unicode code point (quick tier: every white-space or non-printable code point and every 97th other one): join(tokens.create(s)) == s, no exception", "exhaustive": c.tier == "thorough"}
     if s is not None:
         c.findings.append(Finding("bounded", "tokens.create#join", "join(tokens.create(%r)) != input: %s" % (s, why), {"function": "vsg.tokens.create", "failing_input": {"sString": s}, "observed": why}, repr(s)))
 
